@@ -1,6 +1,9 @@
 import OjgVerif.Reflect.Lemmas
 import OjgVerif.Reflect.RegLemmas
-/-! # Recompose inverts Decompose on values (C16, title clause): definitions and lemmas
+import OjgVerif.Reflect.RoundTripSpec
+/-! # Recompose inverts Decompose on values (C16, title clause): lemmas and the core induction
+
+The definitions (`norm`, `structOK`, `rtOK`) are in `RoundTripSpec.lean`.
 
 `norm` is the equality the property can mean: "deeply equal, nil and empty slices or maps not
 distinguished" — a nil slice, map or `[]byte` is identified with the empty one, and (as
@@ -13,34 +16,6 @@ C16* when their `norm`s are equal.
 other: see there). -/
 namespace OjgVerif.Reflect
 open OjgVerif
-
-/-! ## equality up to nil ~ empty -/
-
-mutual
-  def norm : GoVal → GoVal
-    | .flt t => if t = [45, 48] then .flt [48] else .flt t
-    | .nilBytes => .bytes []
-    | .nilSlice => .slice []
-    | .slice xs => .slice (normL xs)
-    | .arr xs => .arr (normL xs)
-    | .nilMap => .map []
-    | .map kvs => .map (normK kvs)
-    | .ptr v => .ptr (norm v)
-    | .iface t v => .iface t (norm v)
-    | .struct fs => .struct (normL fs)
-    | .bool b => .bool b
-    | .int i => .int i
-    | .str s => .str s
-    | .bytes b => .bytes b
-    | .nilPtr => .nilPtr
-    | .nilIface => .nilIface
-  def normL : List GoVal → List GoVal
-    | [] => []
-    | x :: r => norm x :: normL r
-  def normK : List (Bytes × GoVal) → List (Bytes × GoVal)
-    | [] => []
-    | (k, x) :: r => (k, norm x) :: normK r
-end
 
 theorem normL_eq_map : ∀ xs : List GoVal, normL xs = xs.map norm
   | [] => rfl
@@ -145,57 +120,6 @@ theorem mem_kvInsert_of_ne {α : Type} (k : Bytes) (v : α) : ∀ (l : List (Byt
       · subst h; exact List.mem_cons_self
       · exact List.mem_cons_of_mem _ (mem_kvInsert_of_ne k v r x h hne)
 
-/-- the key under which `indexType` files a field that is not embedded (`none`: unexported, or `"-"`) -/
-def idxKeyOf (h : FieldHdr) : Option Bytes :=
-  if unexported h.name then none
-  else if h.tag.isEmpty then some h.name else indexKey h.name h.tag
-
-/-- what the tag says under the options: `none` = the field is not written -/
-def tagView (o : Opts) (h : FieldHdr) : Option (Bytes × Bool × Bool) :=
-  if o.useTags && !h.tag.isEmpty then parseTag h.tag else some ([], false, false)
-
-/-- the key the encoders write a (not flattened) field under (`none`: not written at all) -/
-def planKeyOf (o : Opts) (h : FieldHdr) : Option Bytes :=
-  if unexported h.name then none
-  else match tagView o h with
-    | none => none
-    | some r => some (refKey o h r.1)
-
-def tagOmitOf (o : Opts) (h : FieldHdr) : Bool :=
-  match tagView o h with
-  | some r => r.2.1
-  | none => false
-
-def asStrOf (o : Opts) (h : FieldHdr) : Bool :=
-  match tagView o h with
-  | some r => r.2.2
-  | none => false
-
-/-- the member names `recomp` tries for an index entry, in this order -/
-def candidates (k name : Bytes) : List Bytes := [k, name, lowerFirst name, asciiLowerAll (lowerFirst name)]
-
-/-- field `p` of `fs` is found again: the key the encoder writes it under is one of the names the
-recomposer tries for it; no OTHER field's key and not the create key is one of those names; no other
-field is filed under the same index key; no `,string` option in force; not embedded -/
-def fieldOKAt (o : Opts) (fs : List (FieldHdr × GoType)) (h : FieldHdr) (p : Nat) : Bool :=
-  !h.embedded && !asStrOf o h &&
-  match idxKeyOf h with
-  | none => true
-  | some k =>
-    (match planKeyOf o h with
-      | some pk => (candidates k h.name).contains pk
-      | none => true) &&
-    (o.createKey.isEmpty || !(candidates k h.name).contains o.createKey) &&
-    fs.zipIdx.all fun hq =>
-      hq.2 == p ||
-        ((match planKeyOf o hq.1.1 with
-          | some pk' => !(candidates k h.name).contains pk'
-          | none => true) && idxKeyOf hq.1.1 != some k)
-
-/-- every field of the struct is found again (see `fieldOKAt`) -/
-def structOK (o : Opts) (fs : List (FieldHdr × GoType)) : Bool :=
-  fs.zipIdx.all fun hp => fieldOKAt o fs hp.1.1 hp.2
-
 theorem structOK_at {o : Opts} {fs : List (FieldHdr × GoType)} (hs : structOK o fs = true) {p : Nat} {h : FieldHdr} {t : GoType}
     (hp : fs[p]? = some (h, t)) : fieldOKAt o fs h p = true := by
   have := (List.all_eq_true.1 hs) ((h, t), p) (List.mem_zipIdx_iff_getElem?.2 hp)
@@ -204,7 +128,7 @@ theorem structOK_at {o : Opts} {fs : List (FieldHdr × GoType)} (hs : structOK o
 theorem fieldOKAt_other {o : Opts} {fs : List (FieldHdr × GoType)} {h : FieldHdr} {p : Nat} {k : Bytes}
     (hf : fieldOKAt o fs h p = true) (hk : idxKeyOf h = some k) {q : Nat} {h' : FieldHdr} {t' : GoType}
     (hq : fs[q]? = some (h', t')) (hne : q ≠ p) :
-    (∀ pk', planKeyOf o h' = some pk' → pk' ∉ candidates k h.name) ∧ idxKeyOf h' ≠ some k := by
+    (∀ pk', planKeyOf o h' = some pk' → pk' ∉ triedKeys o h k) ∧ idxKeyOf h' ≠ some k := by
   simp only [fieldOKAt, hk, Bool.and_eq_true] at hf
   have := (List.all_eq_true.1 hf.2.2) ((h', t'), q) (List.mem_zipIdx_iff_getElem?.2 hq)
   simp only [Bool.or_eq_true, beq_iff_eq, hne, false_or, Bool.and_eq_true, bne_iff_ne, ne_eq] at this
@@ -421,6 +345,77 @@ theorem fieldDatum_some (vm : List (Bytes × JV)) (k : Bytes) (e : IdxEntry) (pk
           · exact h4 h.symm
 
 
+theorem mem_of_mem_takeWhile {α : Type} (p : α → Bool) : ∀ (l : List α) (c : α), c ∈ l.takeWhile p → c ∈ l
+  | [], _, h => by simp at h
+  | a :: r, c, h => by
+    simp only [List.takeWhile_cons] at h
+    split at h
+    · rcases List.mem_cons.1 h with h | h
+      · exact h ▸ List.mem_cons_self
+      · exact List.mem_cons_of_mem _ (mem_of_mem_takeWhile p r c h)
+    · simp at h
+
+theorem sat_of_mem_takeWhile {α : Type} (p : α → Bool) : ∀ (l : List α) (c : α), c ∈ l.takeWhile p → p c = true
+  | [], _, h => by simp at h
+  | a :: r, c, h => by
+    simp only [List.takeWhile_cons] at h
+    split at h
+    · rcases List.mem_cons.1 h with h' | h'
+      · subst h'; assumption
+      · exact sat_of_mem_takeWhile p r c h'
+    · simp at h
+
+theorem triedKeys_all (o : Opts) (h : FieldHdr) (k : Bytes) (hh : planKeyOf o h = none ∨ tagOmitOf o h = true) :
+    triedKeys o h k = candidates k h.name := by
+  unfold triedKeys
+  cases hp : planKeyOf o h with
+  | none => rfl
+  | some pk =>
+    rcases hh with hh | hh
+    · rw [hp] at hh; cases hh
+    · simp [hh]
+
+theorem triedKeys_pk (o : Opts) (h : FieldHdr) (k pk : Bytes) (hp : planKeyOf o h = some pk)
+    (hin : pk ∈ candidates k h.name) : pk ∈ triedKeys o h k := by
+  unfold triedKeys
+  simp only [hp]
+  split
+  · exact hin
+  · exact List.mem_cons_self
+
+theorem triedKeys_before (o : Opts) (h : FieldHdr) (k pk c : Bytes) (hp : planKeyOf o h = some pk)
+    (hc : c ∈ (candidates k h.name).takeWhile (· != pk)) : c ∈ triedKeys o h k := by
+  unfold triedKeys
+  simp only [hp]
+  split
+  · exact mem_of_mem_takeWhile _ _ _ hc
+  · exact List.mem_cons_of_mem _ hc
+
+/-- the ORDER of the lookups matters here: the member is found under `pk` as soon as every name tried
+BEFORE `pk` has no member -/
+theorem fieldDatum_some_ordered (vm : List (Bytes × JV)) (k : Bytes) (e : IdxEntry) (pk : Bytes) (m0 : JV)
+    (hs : jvLookup vm pk = some m0) (hin : pk ∈ candidates k e.name)
+    (hn : ∀ c ∈ (candidates k e.name).takeWhile (· != pk), jvLookup vm c = none) : fieldDatum vm k e = some m0 := by
+  simp only [fieldDatum]
+  by_cases h1 : k = pk
+  · rw [h1, hs]
+  · rw [hn k (by simp [candidates, List.takeWhile_cons, h1])]
+    by_cases h2 : e.name = pk
+    · rw [h2, hs]
+    · rw [hn e.name (by simp [candidates, List.takeWhile_cons, h1, h2])]
+      by_cases h3 : lowerFirst e.name = pk
+      · rw [h3, hs]
+      · rw [hn (lowerFirst e.name) (by simp [candidates, List.takeWhile_cons, h1, h2, h3])]
+        by_cases h4 : asciiLowerAll (lowerFirst e.name) = pk
+        · rw [h4, hs]
+        · exfalso
+          simp only [candidates, List.mem_cons, List.not_mem_nil, or_false] at hin
+          rcases hin with h | h | h | h
+          · exact h1 h.symm
+          · exact h2 h.symm
+          · exact h3 h.symm
+          · exact h4 h.symm
+
 /-! ### the walk of `recomp` over the index of a struct without embedded fields -/
 
 /-- slot `p` holds a value equal (up to `norm`) to the original field value -/
@@ -525,7 +520,7 @@ theorem recStruct_flat (o : Opts) (enc : Bool → GoType → GoVal → JV)
   let M := createMember o name pkg ++ refPass o enc sub vs fs 0
   -- every member under a name the recomposer tries for field `p` is the member of field `p`
   have hkey : ∀ (p : Nat) (h : FieldHdr) (t : GoType) (x : GoVal) (k : Bytes), fs[p]? = some (h, t) → vs[p]? = some x → idxKeyOf h = some k →
-      ∀ c ∈ candidates k h.name, ∀ m, (c, m) ∈ M →
+      ∀ c ∈ triedKeys o h k, ∀ m, (c, m) ∈ M →
         planKeyOf o h = some c ∧ (tagOmitOf o h && isEmptyVal x) = false ∧ m = enc (isIface t) t x := by
     intro p h t x k hp hx hk c hc m hm
     have hf := structOK_at hs hp
@@ -584,11 +579,16 @@ theorem recStruct_flat (o : Opts) (enc : Bool → GoType → GoVal → JV)
     have hnone : (planKeyOf o h = none ∨ (tagOmitOf o h && isEmptyVal x) = true) →
         fieldDatum M k ⟨h.name, [p], h.tag⟩ = none := by
       intro hor
+      have hall : triedKeys o h k = candidates k h.name := by
+        apply triedKeys_all
+        rcases hor with h | h
+        · exact Or.inl h
+        · simp only [Bool.and_eq_true] at h; exact Or.inr h.1
       apply fieldDatum_none
       intro c hc
       apply jvLookup_none_of_not_mem
       intro m hm
-      obtain ⟨h1, h2, _⟩ := hk' c hc m hm
+      obtain ⟨h1, h2, _⟩ := hk' c (hall ▸ hc) m hm
       rcases hor with h | h
       · rw [h] at h1; cases h1
       · rw [h] at h2; cases h2
@@ -608,16 +608,18 @@ theorem recStruct_flat (o : Opts) (enc : Bool → GoType → GoVal → JV)
           simp only [fieldOKAt, hk, hpk, Bool.and_eq_true] at hf
           exact List.contains_iff_mem.1 hf.2.1.1
         have hd : fieldDatum M k ⟨h.name, [p], h.tag⟩ = some (enc (isIface t) t x) := by
-          apply fieldDatum_some M k _ pk _ _ hpkc
-          · intro c hc hcne
+          apply fieldDatum_some_ordered M k _ pk _ _ hpkc
+          · intro c hc
             apply jvLookup_none_of_not_mem
             intro m hm
-            obtain ⟨h1, _, _⟩ := hk' c hc m hm
+            obtain ⟨h1, _, _⟩ := hk' c (triedKeys_before o h k pk c hpk hc) m hm
             rw [hpk] at h1
-            exact hcne (Option.some.inj h1).symm
+            have hne' := sat_of_mem_takeWhile _ _ _ hc
+            simp only [bne_iff_ne, ne_eq] at hne'
+            exact hne' (Option.some.inj h1).symm
           · apply jvLookup_some_of_unique M pk _ hmemM
             intro m hm
-            exact (hk' pk hpkc m hm).2.2
+            exact (hk' pk (triedKeys_pk o h k pk hpk hpkc) m hm).2.2
         cases hnull : isNull (enc (isIface t) t x) with
         | true =>
           exact Or.inl ⟨Or.inr ⟨_, hd, hnull⟩, x, hx, ((hfld p h t x hp hx).1 (Or.inr (Or.inr (Or.inr hnull))))⟩
@@ -658,57 +660,6 @@ theorem recStruct_flat (o : Opts) (enc : Bool → GoType → GoVal → JV)
 
 /-! ## the side condition of the round trip, and the theorem -/
 
-/-- the zero value of a scalar, container, pointer or interface type, up to nil ~ empty -/
-def zeroLike : GoType → GoVal → Bool
-  | .bool, .bool b => !b
-  | .int _, .int i => i == 0
-  | .float _, .flt t => floatIsZero t
-  | .str, .str s => s.isEmpty
-  | .bytes, .nilBytes => true
-  | .bytes, .bytes b => b.isEmpty
-  | .slice _, .nilSlice => true
-  | .slice _, .slice xs => xs.isEmpty
-  | .map _, .nilMap => true
-  | .map _, .map kvs => kvs.isEmpty
-  | .ptr _, .nilPtr => true
-  | .iface, .nilIface => true
-  | _, _ => false
-
-/-- a field that is both written (under `o`) and indexed must satisfy `chk`; any other field (unexported,
-`"-"`) cannot come back and must hold a zero value -/
-def fieldChk (o : Opts) (chk : GoType → GoVal → Bool) (h : FieldHdr) (t : GoType) (x : GoVal) : Bool :=
-  match idxKeyOf h, planKeyOf o h with
-  | some _, some _ => chk t x
-  | _, _ => zeroLike t x
-
-def fieldsRT (o : Opts) (chk : GoType → GoVal → Bool) : List (FieldHdr × GoType) → List GoVal → Bool
-  | [], [] => true
-  | (h, t) :: fr, x :: vr => fieldChk o chk h t x && fieldsRT o chk fr vr
-  | _, _ => false
-
-/-- `v` is a value of type `t` that the round-trip theorem speaks about (fuel `vf` suffices):
-integers fit their slot, pointers point to structs, scalars or containers (not to pointers or
-interfaces), arrays have their length, every struct type satisfies `structOK o`, unexported and `"-"`
-fields hold zero values. Not covered (the predicate is `false`): `interface{}` slots, `[]byte`,
-embedded fields, the `,string` tag option. -/
-def rtOK (o : Opts) : Nat → GoType → GoVal → Bool
-  | 0, _, _ => false
-  | n + 1, t, v =>
-    match t, v with
-    | .bool, .bool _ => true
-    | .int k, .int i => wrapInt k i == i
-    | .float _, .flt _ => true
-    | .str, .str _ => true
-    | .ptr _, .nilPtr => true
-    | .ptr e, .ptr x => !isPtrT e && !isIface e && rtOK o n e x
-    | .slice _, .nilSlice => true
-    | .slice e, .slice xs => !isIface e && xs.all (rtOK o n e)
-    | .array k e, .arr xs => xs.length == k && !isIface e && xs.all (rtOK o n e)
-    | .map _, .nilMap => true
-    | .map e, .map kvs => !isIface e && kvs.all fun kv => rtOK o n e kv.2
-    | .struct _ _ fs, .struct vs => structOK o fs && fieldsRT o (rtOK o n) fs vs
-    | _, _ => false
-
 theorem fieldsRT_spec (o : Opts) (chk : GoType → GoVal → Bool) :
     ∀ (fs : List (FieldHdr × GoType)) (vs : List GoVal), fieldsRT o chk fs vs = true →
       vs.length = fs.length ∧
@@ -745,7 +696,7 @@ theorem bytesAsJV_not_null (n : Nat) (b : Bytes) : isNull (bytesAsJV n b) = fals
   · rfl
   · split <;> rfl
 
-theorem refVal_not_null (o : Opts) (hstrict : o.strict = false) (tf vf : Nat) (vi : Bool) (e : GoType) (x : GoVal)
+theorem refVal_not_null (o : Opts) (tf vf : Nat) (vi : Bool) (hs : (vi && o.strict) = false) (e : GoType) (x : GoVal)
     (h1 : isPtrT e = false) (h2 : isIface e = false) : isNull (refVal o tf vf vi e x) = false := by
   cases vf with
   | zero => rfl
@@ -755,7 +706,7 @@ theorem refVal_not_null (o : Opts) (hstrict : o.strict = false) (tf vf : Nat) (v
     | iface => simp [isIface] at h2
     | slice e' =>
       cases x <;> try rfl
-      cases e' <;> simp [refVal, hstrict, isNull]
+      cases e' <;> simp [refVal, hs, isNull]
     | bytes => cases x <;> first | rfl | exact bytesAsJV_not_null _ _
     | _ => cases x <;> rfl
 
@@ -777,7 +728,7 @@ theorem empty_norm_zero (o : Opts) (m : Nat) (t : GoType) (x : GoVal) (hok : rtO
          simp only [Bool.and_eq_true, beq_iff_eq, List.length_nil] at hok
          rw [← hok.1.1]; rfl)
 
-theorem null_is_zero (o : Opts) (hstrict : o.strict = false) (tf m : Nat) (vi : Bool) (t : GoType) (x : GoVal)
+theorem null_is_zero (o : Opts) (tf m : Nat) (vi : Bool) (t : GoType) (hs : (vi && o.strict && isSliceIface t) = false) (x : GoVal)
     (hok : rtOK o m t x = true) (hn : isNull (refVal o tf m vi t x) = true) : norm (zeroVal 63 t) = norm x := by
   cases m with
   | zero => simp [rtOK] at hok
@@ -789,14 +740,29 @@ theorem null_is_zero (o : Opts) (hstrict : o.strict = false) (tf m : Nat) (vi : 
       | ptr y =>
         simp only [rtOK, Bool.and_eq_true, Bool.not_eq_true'] at hok
         have : refVal o tf (n + 1) vi (.ptr e) (.ptr y) = refVal o tf n false e y := rfl
-        rw [this, refVal_not_null o hstrict tf n false _ _ hok.1.1 hok.1.2] at hn
+        rw [this, refVal_not_null o tf n false rfl _ _ hok.1.1 hok.1.2] at hn
         cases hn
       | _ => simp [rtOK] at hok
     | slice e =>
       cases x with
-      | nilSlice => exfalso; cases e <;> simp [refVal, hstrict, isNull] at hn
+      | nilSlice =>
+        exfalso
+        cases e with
+        | iface =>
+          have hvs : (vi && o.strict) = false := by simpa [isSliceIface] using hs
+          have : refVal o tf (n + 1) vi (.slice .iface) .nilSlice = .arr [] := by simp [refVal, hvs]
+          rw [this] at hn; cases hn
+        | _ => simp [refVal, isNull] at hn
       | slice xs => simp [refVal, isNull] at hn
       | _ => simp [rtOK] at hok
+    | bytes =>
+      cases x <;> first
+        | (simp [rtOK] at hok; done)
+        | (exfalso
+           have h0 := bytesAsJV_not_null o.bytesAs []
+           have h1 := fun b => bytesAsJV_not_null o.bytesAs b
+           simp only [refVal] at hn
+           first | (rw [h0] at hn; cases hn) | (rw [h1] at hn; cases hn))
     | _ => cases x <;> first | (simp [rtOK] at hok; done) | (simp [refVal, isNull] at hn; done)
 
 theorem stepList_all (one : Registry → JV → Step) (g : GoVal → JV) :
@@ -826,6 +792,42 @@ theorem stepKvs_all (one : Registry → JV → Step) (g : GoVal → JV) :
     simp only [List.map_cons, stepKvs, hy, h1]
     simp
 
+theorem wrapInt6 (n : Nat) (h : n < 256) : wrapInt 6 (n : Int) = (n : Int) := by
+  have : intBits 6 = 8 := rfl
+  simp only [wrapInt, this]
+  have h2 : ((2 : Int) ^ 8) = 256 := rfl
+  rw [h2]
+  simp only [show ¬ (6 < 5) by omega, ↓reduceIte]
+  omega
+
+theorem stepList_bytes (r : Registry) : ∀ (b : Bytes) (acc : List GoVal),
+    stepList (fun r' x => ⟨scalarSlot (.int 6) x none, r'⟩) r (b.map fun x => JV.int x.toNat) acc =
+      ((some (acc.reverse ++ b.map fun x => GoVal.int x.toNat), .ok .nilPtr), r)
+  | [], acc => by simp [stepList]
+  | x :: rest, acc => by
+    have hx : scalarSlot (.int 6) (.int (x.toNat : Int)) none = .ok (.int (x.toNat : Int)) := by
+      simp only [scalarSlot, wrapInt6 x.toNat (UInt8.toNat_lt x)]
+    simp only [List.map_cons, stepList, hx, stepList_bytes r rest]
+    simp
+
+theorem bytesOf_ints (b : Bytes) : bytesOf (b.map fun x => GoVal.int x.toNat) = .bytes b := by
+  simp only [bytesOf, List.map_map, GoVal.bytes.injEq]
+  conv => rhs; rw [← List.map_id b]
+  apply List.map_congr_left
+  intro x _
+  simp
+
+theorem bytesAsJV_array (o : Opts) (h : bytesAsArray o = true) (b : Bytes) :
+    bytesAsJV o.bytesAs b = .arr (b.map fun x => .int x.toNat) := by
+  simp only [bytesAsArray, Bool.and_eq_true, beq_iff_eq, bne_iff_ne, ne_eq] at h
+  unfold bytesAsJV
+  rw [if_neg h.2, if_pos h.1]
+
+theorem isIface_hs (o : Opts) (t : GoType) : (isIface t && o.strict && isSliceIface t) = false := by
+  cases ht : isIface t with
+  | false => rfl
+  | true => cases t <;> simp [isIface] at ht; simp [isSliceIface]
+
 abbrev pureCF : Nat → ComposerFor := fun _ => composerPure
 
 /-- `elemStep` on a pointer element is one level of `recomp` in mode 2 -/
@@ -844,20 +846,20 @@ embedded fields or `,string`: `rtOK` excludes them): with an ideal registry, rec
 reference encoder describes for `v` gives a value equal to `v` up to `norm`, in either mode of
 `recomp` (`reflect.New` target or the slot itself), with any registry threaded through unchanged and
 any fuel `f ≥ vf`. -/
-theorem rt_core (o : Opts) (hstrict : o.strict = false) (tf' : Nat) :
+theorem rt_core (o : Opts) (tf' : Nat) :
     ∀ (n vf : Nat), vf ≤ n → ∀ (f : Nat), vf ≤ f → ∀ (vi : Bool) (t : GoType) (v : GoVal),
-      rtOK o vf t v = true →
+      (vi && o.strict && isSliceIface t) = false → rtOK o vf t v = true →
       ∃ v', norm v' = norm v ∧ ∀ (r : Registry) (sf : Option IdxEntry) (mode : Nat), (mode = 1 ∨ mode = 2) →
         recompG pureCF o.createKey f r mode (refVal o (tf' + 1) vf vi t v) t sf = ⟨.ok v', r⟩ := by
   intro n
   induction n with
   | zero =>
-    intro vf hvf f _ vi t v h
+    intro vf hvf f _ vi t v _ h
     have : vf = 0 := by omega
     subst this
     simp [rtOK] at h
   | succ n ih =>
-    intro vf hvf f hf vi t v hok
+    intro vf hvf f hf vi t v hs hok
     cases vf with
     | zero => simp [rtOK] at hok
     | succ vf' =>
@@ -873,10 +875,10 @@ theorem rt_core (o : Opts) (hstrict : o.strict = false) (tf' : Nat) :
       intro e x hx
       cases hp : isPtrT e with
       | true =>
-        obtain ⟨y, hy, hrec⟩ := IH (f' + 1) (by omega) false e x hx
+        obtain ⟨y, hy, hrec⟩ := IH (f' + 1) (by omega) false e x rfl hx
         exact ⟨y, hy, fun r => by rw [elemStep_eq, hp]; exact hrec r none 2 (Or.inr rfl)⟩
       | false =>
-        obtain ⟨y, hy, hrec⟩ := IH f' hf' false e x hx
+        obtain ⟨y, hy, hrec⟩ := IH f' hf' false e x rfl hx
         exact ⟨y, hy, fun r => by rw [elemStep_eq, hp]; exact hrec r none 2 (Or.inr rfl)⟩
     cases t with
     | bool =>
@@ -908,7 +910,26 @@ theorem rt_core (o : Opts) (hstrict : o.strict = false) (tf' : Nat) :
         intro r sf mode hm
         rcases hm with rfl | rfl <;> simp [recompG, recBody, refVal, isNull, scalarSlot]
       | _ => simp [rtOK] at hok
-    | bytes => cases v <;> simp [rtOK] at hok
+    | bytes =>
+      cases v with
+      | nilBytes =>
+        simp only [rtOK] at hok
+        refine ⟨.bytes [], rfl, ?_⟩
+        intro r sf mode hm
+        have hrv : refVal o (tf' + 1) (vf' + 1) vi .bytes .nilBytes = .arr ([].map fun x : UInt8 => JV.int x.toNat) :=
+          bytesAsJV_array o hok []
+        rw [hrv]
+        rcases hm with rfl | rfl <;> simp [recompG, recBody, isNull, recBytes, stepList, listFinish, bytesOf]
+      | bytes b =>
+        simp only [rtOK] at hok
+        refine ⟨.bytes b, rfl, ?_⟩
+        intro r sf mode hm
+        have hrv : refVal o (tf' + 1) (vf' + 1) vi .bytes (.bytes b) = .arr (b.map fun x => JV.int x.toNat) :=
+          bytesAsJV_array o hok b
+        rw [hrv]
+        rcases hm with rfl | rfl <;>
+          simp [recompG, recBody, isNull, recBytes, stepList_bytes, listFinish, bytesOf_ints]
+      | _ => simp [rtOK] at hok
     | iface => cases v <;> simp [rtOK] at hok
     | ptr e =>
       cases v with
@@ -918,10 +939,10 @@ theorem rt_core (o : Opts) (hstrict : o.strict = false) (tf' : Nat) :
         rcases hm with rfl | rfl <;> simp [recompG, recBody, refVal, isNull, ptrStep, zeroVal, fuelZ]
       | ptr x =>
         simp only [rtOK, Bool.and_eq_true, Bool.not_eq_true'] at hok
-        obtain ⟨y, hy, hrec⟩ := IH f' hf' false e x hok.2
+        obtain ⟨y, hy, hrec⟩ := IH f' hf' false e x rfl hok.2
         refine ⟨.ptr y, by simp [norm, hy], ?_⟩
         intro r sf mode hm
-        have hnn := refVal_not_null o hstrict (tf' + 1) vf' false e x hok.1.1 hok.1.2
+        have hnn := refVal_not_null o (tf' + 1) vf' false rfl e x hok.1.1 hok.1.2
         have hrv : refVal o (tf' + 1) (vf' + 1) vi (.ptr e) (.ptr x) = refVal o (tf' + 1) vf' false e x := rfl
         rw [hrv]
         rcases hm with rfl | rfl <;>
@@ -933,7 +954,11 @@ theorem rt_core (o : Opts) (hstrict : o.strict = false) (tf' : Nat) :
         refine ⟨.slice [], rfl, ?_⟩
         intro r sf mode hm
         have hrv : refVal o (tf' + 1) (vf' + 1) vi (.slice e) .nilSlice = .arr [] := by
-          cases e <;> simp [refVal, hstrict]
+          cases e with
+          | iface =>
+            have hvs : (vi && o.strict) = false := by simpa [isSliceIface] using hs
+            simp [refVal, hvs]
+          | _ => simp [refVal]
         rw [hrv]
         rcases hm with rfl | rfl <;> simp [recompG, recBody, isNull, recSlice, stepList, listFinish]
       | slice xs =>
@@ -955,7 +980,7 @@ theorem rt_core (o : Opts) (hstrict : o.strict = false) (tf' : Nat) :
         have hall : ∀ x ∈ xs, ∃ y, norm y = norm x ∧
             ∀ r, (fun r' x => recompG pureCF o.createKey f' r' 2 x e none) r (refVal o (tf' + 1) vf' false e x) = ⟨.ok y, r⟩ := by
           intro x hx
-          obtain ⟨y, hy, hrec⟩ := IH f' hf' false e x (hok.2 x hx)
+          obtain ⟨y, hy, hrec⟩ := IH f' hf' false e x rfl (hok.2 x hx)
           exact ⟨y, hy, fun r => hrec r none 2 (Or.inr rfl)⟩
         obtain ⟨ys, hys, hst⟩ := stepList_all (fun r' x => recompG pureCF o.createKey f' r' 2 x e none)
           (refVal o (tf' + 1) vf' false e) xs hall
@@ -987,10 +1012,10 @@ theorem rt_core (o : Opts) (hstrict : o.strict = false) (tf' : Nat) :
           intro kv hkv
           cases hp : isPtrT e with
           | true =>
-            obtain ⟨y, hy, hrec⟩ := IH (f' + 1) (by omega) false e kv.2 (hok.2 kv hkv)
+            obtain ⟨y, hy, hrec⟩ := IH (f' + 1) (by omega) false e kv.2 rfl (hok.2 kv hkv)
             exact ⟨y, hy, fun r => by rw [mapElemStep_eq _ _ _ hok.1, hp]; exact hrec r none 2 (Or.inr rfl)⟩
           | false =>
-            obtain ⟨y, hy, hrec⟩ := IH f' hf' false e kv.2 (hok.2 kv hkv)
+            obtain ⟨y, hy, hrec⟩ := IH f' hf' false e kv.2 rfl (hok.2 kv hkv)
             exact ⟨y, hy, fun r => by rw [mapElemStep_eq _ _ _ hok.1, hp]; exact hrec r none 1 (Or.inl rfl)⟩
         obtain ⟨ys, hys, hst⟩ := stepKvs_all (mapElemStep (recompG pureCF o.createKey f') e)
           (refVal o (tf' + 1) vf' false e) kvs hall
@@ -1025,10 +1050,10 @@ theorem rt_core (o : Opts) (hstrict : o.strict = false) (tf' : Nat) :
                   · rw [hpk] at h1; cases h1
                   · simp only [Bool.and_eq_true] at h1
                     exact empty_norm_zero o vf' t x hc h1.2
-                  · exact null_is_zero o hstrict (tf' + 1) vf' (isIface t) t x hc h1
+                  · exact null_is_zero o (tf' + 1) vf' (isIface t) t (isIface_hs o t) x hc h1
             · intro k pk hk hpk _
               simp only [fieldChk, hk, hpk] at hc
-              obtain ⟨y, hy, hr⟩ := IH f' hf' (isIface t) t x hc
+              obtain ⟨y, hy, hr⟩ := IH f' hf' (isIface t) t x (isIface_hs o t) hc
               exact ⟨y, fun r e => hr r (some e) 2 (Or.inr rfl), hy⟩)
         refine ⟨v', hv', ?_⟩
         intro r sf mode hm
@@ -1038,5 +1063,88 @@ theorem rt_core (o : Opts) (hstrict : o.strict = false) (tf' : Nat) :
         rw [hrv]
         rcases hm with rfl | rfl <;> simp [recompG, recBody, isNull, hrec]
       | _ => simp [rtOK] at hok
+
+
+/-! ## the options as the code reads them: with `UseTags`, `KeyExact` is not read (C15-usetags-keyexact) -/
+
+theorem altTagPass_te (ke nest : Bool) (sub sub' : List (FieldHdr × GoType) → List Finfo) (hs : ∀ fs, sub fs = sub' fs) :
+    ∀ (fs : List (FieldHdr × GoType)) (i : Nat), altTagPass true ke nest sub fs i = altTagPass true true nest sub' fs i := by
+  intro fs
+  induction fs with
+  | nil => intro i; rfl
+  | cons hd rest ih =>
+    intro i
+    obtain ⟨h, t⟩ := hd
+    simp only [altTagPass, ih, hs, Bool.true_or, Bool.or_true]
+
+theorem altTagFields_te (ke nest : Bool) : ∀ (tf : Nat) (fs : List (FieldHdr × GoType)),
+    altTagFields true ke nest tf fs = altTagFields true true nest tf fs := by
+  intro tf
+  induction tf with
+  | zero => intro fs; rfl
+  | succ n ih => intro fs; simp only [altTagFields]; exact altTagPass_te ke nest _ _ ih fs 0
+
+theorem planOf_alt_eff (o : Opts) (tf : Nat) (om : Bool) (fs : List (FieldHdr × GoType)) :
+    planOf .alt Dev.current o tf om fs = planOf .alt Dev.current (effOpts o) tf om fs := by
+  cases hu : o.useTags with
+  | false => simp [effOpts, hu]
+  | true =>
+    have e1 : (effOpts o).useTags = true := by simp [effOpts, hu]
+    have e2 : (effOpts o).keyExact = true := by simp [effOpts, hu]
+    have e3 : (effOpts o).nestEmbed = o.nestEmbed := by simp [effOpts, hu]
+    simp only [planOf]
+    rw [altFindex_cases, altFindex_cases]
+    simp only [hu, e1, e2, e3, ↓reduceIte]
+    rw [show Dev.current.tagExact = true from rfl, altTagFields_te o.keyExact]
+
+theorem encVal_opts_congr (q : Quirks) (o o' : Opts) (plan : Bool → List (FieldHdr × GoType) → List Finfo)
+    (h1 : o'.bytesAs = o.bytesAs) (h2 : o'.strict = o.strict) (h3 : o'.createKey = o.createKey)
+    (h4 : o'.fullTypePath = o.fullTypePath) :
+    ∀ (vf : Nat) (vi ie oe : Bool) (t : GoType) (v : GoVal), encVal q o' plan vf vi ie oe t v = encVal q o plan vf vi ie oe t v := by
+  intro vf
+  induction vf with
+  | zero => intro vi ie oe t v; rfl
+  | succ n ih =>
+    intro vi ie oe t v
+    have ihf : ∀ vi ie oe, encVal q o' plan n vi ie oe = encVal q o plan n vi ie oe := by
+      intro vi ie oe; funext t v; exact ih vi ie oe t v
+    cases t <;> cases v <;> simp only [encVal, ih, ihf, h1, h2, createMember, h3, h4]
+
+theorem encode_alt_eff (o : Opts) (tf vf : Nat) (t : GoType) (v : GoVal) :
+    encode .alt Dev.current (effOpts o) tf vf t v = encode .alt Dev.current o tf vf t v := by
+  unfold encode
+  have hq : quirksOf .alt Dev.current (effOpts o) = quirksOf .alt Dev.current o := rfl
+  have hp : planOf .alt Dev.current (effOpts o) tf = planOf .alt Dev.current o tf := by
+    funext om fs; exact (planOf_alt_eff o tf om fs).symm
+  rw [hq, hp]
+  apply encVal_opts_congr <;> (unfold effOpts; split <;> rfl)
+
+
+theorem effOpts_tagcond (o : Opts) : (!(effOpts o).useTags || (effOpts o).keyExact) = true := by
+  unfold effOpts
+  cases hu : o.useTags <;> simp [hu]
+
+/-- for `alt` as it is now, read under the options as the code reads them, NO run meets a deviation:
+the only live one (`tagExact`) is absorbed by `effOpts` -/
+theorem untriggered_alt_eff (o : Opts) (tf : Nat) (plan : List (FieldHdr × GoType) → List Finfo) :
+    ∀ (vf : Nat) (vi ie : Bool) (t : GoType) (v : GoVal),
+      untriggered .alt Dev.current (effOpts o) tf plan vf vi ie t v = true := by
+  intro vf
+  induction vf with
+  | zero => intro vi ie t v; rfl
+  | succ n ih =>
+    intro vi ie t v
+    have hq : quirksOf .alt Dev.current (effOpts o) = ⟨false, false, false, false, false, false⟩ := rfl
+    have hl : Dev.current.leak = false := rfl
+    have ht : Dev.current.tagExact = true := rfl
+    have htc := effOpts_tagcond o
+    cases t <;> cases v <;>
+      simp only [untriggered, hq, ih, hl, ht, Bool.false_and, Bool.not_false, Bool.and_false, Bool.and_true, List.all_eq_true,
+        implies_true, Bool.true_and, childOE, Bool.true_or, Bool.not_true, Bool.false_or]
+    all_goals first
+      | rfl
+      | (rw [htc, Bool.true_and, List.all_eq_true]
+         intro fi _
+         split <;> rfl)
 
 end OjgVerif.Reflect
